@@ -41,6 +41,11 @@ META = {
         "design_ref": "DESIGN.md §4 C12",
         "note": "Hook Create being rejected is covered by C03's fault model, log-output policies and test hooks are outside the claim. Bounds: <=2 hooks (quick) / <=3 (thorough), weights in [-2,2], <=1 readiness failure.",
     },
+    "C14": {
+        "text": "Bounded symbolic model checking that the schema gate is where the property says it is: real Install.Run/Upgrade.Run over a parent chart with two subcharts (one switched by a condition), per chart a symbolic 'has schema' and a symbolic 'values satisfy it', symbolic skip flag, charts with/without crds/: the operation fails iff not skipped and some ENABLED chart with a schema is violated, the error names each such chart, nothing is stored or sent to the cluster, the evaluator is invoked exactly once per enabled chart with a schema and never for a disabled one, and never when skipping. Native replays run the real jsonschema evaluator on the same documents.",
+        "design_ref": "DESIGN.md §4 C14",
+        "note": "The schema evaluator (santhosh-tekuri/jsonschema) is cut (class S) to an evaluator of the single schema shape the harness uses; agreement of helm's verdict with an independent evaluation over all schemas x all values is outside the claim, as are template and lint. One known finding: CRDs are created before the gate on install.",
+    },
     "C16": {
         "text": "Bounded symbolic model checking of the real archive-name pipeline and size accounting of LoadArchiveFiles and of the real plugin cleanJoin + securejoin loop: for every header name (all byte strings up to the bound over the alphabet that matters: letters, '.', '/', backslash, ':', a drive letter) and every tar type flag, whatever is accepted is a clean relative path without '..' segment, backslash or drive prefix; for symbolic 64-bit sizes and limits, accepted archives respect the per-file and total limits and the stream is never asked for more than the remaining budget.",
         "design_ref": "DESIGN.md §4 C16",
@@ -59,4 +64,4 @@ META = {
 }
 
 _NYB = "harness not built yet in this session (design in DESIGN.md §4); not claimed until its check runs clean"
-NOT_APPLICABLE = {p: _NYB for p in ["C02", "C05", "C09", "C11", "C13", "C14", "C15", "C17", "C19"]}
+NOT_APPLICABLE = {p: _NYB for p in ["C02", "C05", "C09", "C11", "C13", "C15", "C17", "C19"]}
